@@ -11,6 +11,7 @@ functions are analysed in the caller's context; external functions need a
 summary.  No path is handed to a solver: the only decision procedure is the
 domain's own Fourier-Motzkin entailment (lin.py).
 """
+import os
 import sys
 from lin import Lin, Cons, _L
 from absval import (IntVal, PtrVal, CondVal, FloatVal, AggVal, TOP, Top, NULL,
@@ -447,8 +448,8 @@ class Interp:
             for l in cands:
                 r = self.mk_from_math(st, l, w)
                 if r is not None:
-                    if a.pint is not None and op in ('add', 'sub') and b.pint is None:
-                        pass
+                    if nsw and r.s is None and as_ is not None and bs is not None:
+                        r = IntVal(w, r.u, as_ + bs * sign)
                     return r
             # UB-free assumption for signed arithmetic flagged nsw by the compiler
             if nsw and as_ is not None and bs is not None:
@@ -459,17 +460,15 @@ class Interp:
             if op == 'sub' and a.pint is not None and b.pint is not None and \
                     a.pint.obj is not None and a.pint.obj == b.pint.obj:
                 return IntVal(w, None, a.pint.off - b.pint.off)
-            r = st.fresh_int(w, False, 'wrap')
-            # modular result: if unsigned forms known, r = au (+/-) bu (mod 2^w)
             if au is not None and bu is not None:
-                l = au + bu * sign
-                if sign == 1:
-                    st.cons.add_le(l - (1 << w), r.u)   # r >= l - 2^w
-                    st.cons.add_le(r.u, l)              # r <= l
-                else:
-                    st.cons.add_le(l, r.u)              # r >= l
-                    st.cons.add_le(r.u, l + (1 << w))
-            return r
+                # modular result with an explicit carry/borrow symbol k in {0,1}:
+                #   add: r = au + bu - 2^w*k     sub: r = au - bu + 2^w*k
+                kf = st.fresh_int(1, False, 'carry')
+                l = au + bu * sign + kf.u * (-(1 << w) * sign)
+                st.cons.add_le(0, l)
+                st.cons.add_le(l, (1 << w) - 1)
+                return IntVal(w, l, None)
+            return st.fresh_int(w, False, 'wrap')
         if op == 'mul':
             k, x = (ca, b) if ca is not None else ((cb, a) if cb is not None else (None, None))
             if k is not None:
@@ -495,6 +494,13 @@ class Interp:
             return st.fresh_int(w, False, 'shl')
         if op in ('udiv', 'urem', 'lshr'):
             au, bu = st.as_u(a), st.as_u(b)
+            if op in ('udiv', 'urem') and a.u is None and a.s is not None:
+                # a signed quantity is reinterpreted as unsigned by an unsigned
+                # division/modulo: only value-preserving when it is >= 0
+                self.oblige('signmod:' + op, inst, au is not None,
+                            None if au is not None else
+                            'signed value %r (possibly negative) is converted to unsigned by %s'
+                            % (a.s, op), 'dividend')
             if op == 'lshr':
                 if cb is None or cb >= w:
                     return st.fresh_int(w, False, op)
@@ -518,6 +524,8 @@ class Interp:
                 st.cons.add_le(r.u, bu - 1)
                 if st.cons.entails_le(au, bu - 1):
                     return IntVal(w, au, None)
+                if st.cons.entails_le(bu, au) and st.cons.entails_le(au, bu * 2 - 1):
+                    return IntVal(w, au - bu, None)
             return r
         if op in ('sdiv', 'srem', 'ashr'):
             as_, bs = st.as_s(a), st.as_s(b)
@@ -551,8 +559,15 @@ class Interp:
                         st.cons.add_le(r.s, as_)
                         if st.cons.entails_le(as_, bs - 1):
                             return IntVal(w, None, as_)
+                        if st.cons.entails_le(bs, as_) and st.cons.entails_le(as_, bs * 2 - 1):
+                            return IntVal(w, None, as_ - bs)
                     elif st.cons.entails_le(as_, 0):
                         st.cons.add_le(r.s, 0)
+                        st.cons.add_le(as_, r.s)
+                        if st.cons.entails_le(-(bs - 1), as_):
+                            return IntVal(w, None, as_)
+                        if st.cons.entails_le(as_, -bs) and st.cons.entails_le(-(bs * 2 - 1), as_):
+                            return IntVal(w, None, as_ + bs)
                 return r
             return st.fresh_int(w, True, op)
         if op == 'and':
@@ -1170,6 +1185,22 @@ class Interp:
                 del st.mem[k]
             env[key] = PtrVal(oid)
             return [st]
+        if op == 'zext' and isinstance(self.val(st, i.ops[0], fn), CondVal):
+            c = self.val(st, i.ops[0], fn)
+            w = i.ty['bits']
+            d = self.decide(st, c)
+            if d is not None:
+                env[key] = mk_const(w, 1 if d else 0)
+                return [st]
+            s2 = st.fork()
+            out = []
+            for s in self.assume(st, c, True):
+                s.env[key] = mk_const(w, 1)
+                out.append(s)
+            for s in self.assume(s2, c, False):
+                s.env[key] = mk_const(w, 0)
+                out.append(s)
+            return out
         if op in ('bitcast', 'zext', 'sext', 'trunc', 'ptrtoint', 'inttoptr',
                   'sitofp', 'uitofp', 'fptosi', 'fptoui', 'fpext', 'fptrunc',
                   'addrspacecast'):
@@ -1291,6 +1322,8 @@ class Interp:
         e = self.externals.get(name)
         if e is not None:
             return e
+        if name.startswith('_ZSt') and '__throw_' in name:
+            return ext_noreturn
         for pref, f in PREFIX_EXTERNALS:
             if name.startswith(pref):
                 return f
@@ -1327,8 +1360,10 @@ class Interp:
         smashed = set()
         templ = None          # candidate invariants over placeholders ('$', i)
         outer_written = st.written
-        for it in range(MAX_HOUDINI + 1):
-            H, newsyms = self.build_head(st, fn, L, phis, inits, modified, smashed)
+        signs = {}            # what-key -> signedness override of the loop-head symbol
+        flipped = set()
+        for it in range(MAX_HOUDINI + 4):
+            H, newsyms = self.build_head(st, fn, L, phis, inits, modified, smashed, signs)
             if templ is None:
                 templ = self.gen_candidates(st, newsyms)
             ren = {('$', n): ns[0] for n, ns in enumerate(newsyms)}
@@ -1350,12 +1385,33 @@ class Interp:
                 templ = None
                 continue
             keep = []
+            lsub = []
+            reflip = False
+            for (T, lf) in latches:
+                m, bad = self.latch_subst(fn, T, lf, newsyms)
+                for wk in bad:
+                    if wk not in flipped:
+                        flipped.add(wk)
+                        cur = [n for n in newsyms if self.what_key(n[2]) == wk][0][4]
+                        signs[wk] = not cur
+                        reflip = True
+                lsub.append((T, m))
+            if reflip:
+                templ = None
+                continue
+            dbg = os.environ.get('VERIF_DEBUG_LOOPS')
+            if dbg:
+                print('LOOP %s/%s iter %d: syms=%s cands=%d latches=%d exits=%d' % (
+                    fn.name, header.name, it, [(str(n[0]), str(n[1]), n[2][0], n[4]) for n in newsyms],
+                    len(cands), len(latches), len(exits)))
             for c, t in zip(cands, templ):
                 ok = True
-                for (T, lf) in latches:
-                    m = self.latch_subst(fn, T, lf, newsyms)
-                    if m is None or not T.cons.entails(c.subst(m)):
+                for (T, m) in lsub:
+                    if any(sy in c.t for sy in m.get('__missing__', ())) or \
+                            not T.cons.entails(c.subst(m)):
                         ok = False
+                        if dbg:
+                            print('   drop %r  (latch value %r)' % (c, c.subst(m)))
                         break
                 if ok:
                     keep.append(t)
@@ -1367,7 +1423,7 @@ class Interp:
             raise AnalysisBroken('loop invariant inference did not converge in %s (header %s)'
                                  % (fn.name, header.name))
         # final pass, obligations recorded
-        H, newsyms = self.build_head(st, fn, L, phis, inits, modified, smashed)
+        H, newsyms = self.build_head(st, fn, L, phis, inits, modified, smashed, signs)
         ren = {('$', n): ns[0] for n, ns in enumerate(newsyms)}
         for c in templ:
             H.cons.add(c.subst(ren))
@@ -1382,7 +1438,12 @@ class Interp:
             s.written = outer_written
         return exits
 
-    def build_head(self, st, fn, L, phis, inits, modified, smashed):
+    @staticmethod
+    def what_key(what):
+        return (what[0], what[1].id) if what[0] in ('phi', 'pphi') else (what[0], what[1])
+
+    def build_head(self, st, fn, L, phis, inits, modified, smashed, signs=None):
+        signs = signs or {}
         """loop-head abstraction: fresh symbols for header phis and for the
         memory cells written in the loop; cells of smashed objects dropped"""
         H = st.fork()
@@ -1392,7 +1453,9 @@ class Interp:
             iv = inits[ph.id]
             hint = str(ph.name or ph.id)
             if isinstance(iv, IntVal):
-                signed = self.phi_signed(fn, L, ph, iv, st)
+                signed = signs.get(('phi', ph.id))
+                if signed is None:
+                    signed = self.phi_signed(fn, L, ph, iv, st)
                 init = st.as_s(iv) if signed else st.as_u(iv)
                 x = H.fresh_int(iv.w, signed, 'phi_' + hint)
                 H.env[('i', ph.id)] = x
@@ -1411,8 +1474,10 @@ class Interp:
             old = st.mem.get(k)
             H.mem.pop(k, None)
             if isinstance(old, IntVal):
-                signed = old.u is None
-                init = old.s if signed else old.u
+                signed = signs.get(('cell', k))
+                if signed is None:
+                    signed = self.cell_signed(st, k, old)
+                init = st.as_s(old) if signed else st.as_u(old)
                 x = H.fresh_int(old.w, signed, 'cell')
                 H.mem[k] = x
                 newsyms.append(((x.s if signed else x.u), init, ('cell', k), old.w, signed))
@@ -1433,7 +1498,34 @@ class Interp:
         newsyms = [n for n in newsyms if n[2][0] in ('phi', 'pphi') or n[2][1] in H.mem]
         return H, newsyms
 
+    def cell_signed(self, st, k, old):
+        o = st.objs.get(k[0])
+        if o is not None and o.info.get('struct'):
+            for f in self.mod.flat_fields(o.info['struct']):
+                if f['off'] == k[1] and f.get('signed') in (0, 1):
+                    want = f['signed'] == 1
+                    if want and st.as_s(old) is not None:
+                        return True
+                    if not want and st.as_u(old) is not None:
+                        return False
+        return old.u is None
+
     def phi_signed(self, fn, L, ph, iv, st):
+        # source-level signedness of the variable bound to this phi
+        m = getattr(fn, '_dbg_signed', None)
+        if m is None:
+            m = {}
+            for b in fn.blocks:
+                for i in b.insts:
+                    if i.op == 'dbg' and i.ops and i.ops[0].k == 'inst' and i.d.get('signed', -1) in (0, 1):
+                        m.setdefault(i.ops[0].id, i.d['signed'] == 1)
+            fn._dbg_signed = m
+        if ph.id in m:
+            want = m[ph.id]
+            if want and st.as_s(iv) is not None:
+                return True
+            if not want and st.as_u(iv) is not None:
+                return False
         if iv.u is None:
             return True
         if iv.s is None:
@@ -1450,10 +1542,14 @@ class Interp:
         return False
 
     def latch_subst(self, fn, T, lf, newsyms):
-        """mapping fresh loop-head symbol -> its value at the latch state T"""
+        """(mapping fresh loop-head symbol -> its value at the latch state T,
+        list of what-keys whose value has no form in the symbol's signedness)"""
         m = {}
+        bad = []
+        missing = []
         for (xl, init, what, w, signed) in newsyms:
             sym = next(iter(xl.t))
+            l = None
             if what[0] in ('phi', 'pphi'):
                 ph = what[1]
                 nv = None
@@ -1461,31 +1557,28 @@ class Interp:
                     if bb == lf.name:
                         nv = self.val(T, v, fn)
                 if what[0] == 'phi':
-                    if not isinstance(nv, IntVal):
-                        return None
-                    l = T.as_s(nv) if signed else T.as_u(nv)
-                else:
-                    if not isinstance(nv, PtrVal) or nv.obj is None:
-                        return None
-                    hv = None
+                    if isinstance(nv, IntVal):
+                        l = T.as_s(nv) if signed else T.as_u(nv)
+                        if l is None:
+                            bad.append(self.what_key(what))
+                elif isinstance(nv, PtrVal) and nv.obj is not None:
                     l = nv.off
-                if l is None:
-                    return None
-                m[sym] = l
             elif what[0] == 'cell':
                 nv = T.mem.get(what[1])
-                if not isinstance(nv, IntVal):
-                    return None
-                l = T.as_s(nv) if signed else T.as_u(nv)
-                if l is None:
-                    return None
-                m[sym] = l
+                if isinstance(nv, IntVal):
+                    l = T.as_s(nv) if signed else T.as_u(nv)
+                    if l is None:
+                        bad.append(self.what_key(what))
             else:
                 nv = T.mem.get(what[1])
-                if not isinstance(nv, PtrVal) or nv.obj is None:
-                    return None
-                m[sym] = nv.off
-        return m
+                if isinstance(nv, PtrVal) and nv.obj is not None:
+                    l = nv.off
+            if l is None:
+                missing.append(sym)
+            else:
+                m[sym] = l
+        m['__missing__'] = missing
+        return m, bad
 
     def gen_candidates(self, st, newsyms):
         """template candidates (over placeholders ('$', i) standing for the
@@ -1513,11 +1606,19 @@ class Interp:
         rel = set()
         for (xl, init) in usable:
             rel.update(init.t.keys())
-        for l in cone(st.cons.items, set(rel)):
-            for s in l.t:
-                if len(rel) < 14:
-                    rel.add(s)
+        # one hop: symbols directly related to the initial values
+        hop = set()
+        for l in st.cons.items:
+            if len(l.t) <= 3 and any(s in rel for s in l.t):
+                hop.update(l.t.keys())
+        for s_ in sorted(hop, key=str):
+            if len(rel) < 8:
+                rel.add(s_)
         rel = sorted(rel, key=str)
+        ptrish = set()
+        for n, (xl, init, what, w, signed) in enumerate(newsyms):
+            if what[0] in ('pphi', 'pcell'):
+                ptrish.add(('$', n))
         for (xl, init) in usable:
             add(xl - init)        # x <= init
             add(init - xl)        # x >= init
@@ -1526,15 +1627,21 @@ class Interp:
                 add(Lin(k) - xl)
             for y in rel:
                 yl = Lin.sym(y)
-                for k in (0, 1, -1):
-                    add(xl - yl - k)
-                    add(yl - xl - k)
+                for k in (0, -1):
+                    add(xl - yl - k)      # x <= y + k
+                    add(yl - xl - k)      # x >= y - k
         for a in range(len(usable)):
             for b in range(a + 1, len(usable)):
                 xa, ia = usable[a]
                 xb, ib = usable[b]
-                for ka, kb in ((1, 1), (1, -1), (1, -2), (1, -4), (1, -8), (2, -1), (4, -1), (8, -1),
-                               (1, 2), (1, 4), (1, 8), (2, 1), (4, 1), (8, 1)):
+                pairs = [(1, 1), (1, -1)]
+                pa = next(iter(xa.t)) in ptrish
+                pb = next(iter(xb.t)) in ptrish
+                if pa and not pb:
+                    pairs += [(1, -2), (1, -4), (1, -8), (1, 2), (1, 4), (1, 8)]
+                if pb and not pa:
+                    pairs += [(-2, 1), (-4, 1), (-8, 1), (2, 1), (4, 1), (8, 1)]
+                for ka, kb in pairs:
                     e = xa * ka + xb * kb - (ia * ka + ib * kb)
                     add(e)
                     add(-e)
